@@ -472,6 +472,7 @@ pub fn log_child_drop(child: usize) {
 }
 
 /// scripted future with output `Tagged`
+#[derive(Debug)]
 pub struct SFut(pub usize);
 impl Future for SFut {
     type Output = Tagged;
@@ -489,6 +490,7 @@ impl Drop for SFut {
 }
 
 /// scripted future with output `Result<Tagged, Tagged>`
+#[derive(Debug)]
 pub struct RFut(pub usize);
 impl Future for RFut {
     type Output = Result<Tagged, Tagged>;
